@@ -41,19 +41,19 @@ var c07Tests = []struct {
 	{"has_all_words", [][]string{{"red blue"}, {"the"}}},
 	{"has_phrase", [][]string{{"red"}, {"the red"}}},
 	{"has_only_phrase", [][]string{{"red"}, {"yes"}}},
-	{"has_beginning", [][]string{{"re"}, {"the"}}},
+	{"has_beginning", [][]string{{"re"}, {"the"}, {" re"}}},
 	{"has_text", [][]string{{}}},
 	{"has_number", [][]string{{}}},
 	{"has_number_gt", [][]string{{"5"}, {"x"}, {"@(1/0)"}}},
 	{"has_number_between", [][]string{{"1", "10"}, {"5", "@fields.nope"}}},
 	{"has_number_eq", [][]string{{"7"}}},
-	{"has_pattern", [][]string{{"r.d"}, {"("}}},
+	{"has_pattern", [][]string{{"r.d"}, {"("}, {"red "}}},
 	{"has_email", [][]string{{}}},
 	{"has_error", [][]string{{}}},
-	{"has_only_text", [][]string{{"red"}, {"Red"}}},
+	{"has_only_text", [][]string{{"red"}, {"Red"}, {"red "}, {" red"}, {"\tyes please\n"}}}, // arguments are trimmed when they are evaluated
 	{"has_phone", [][]string{{}}},
 	{"has_state", [][]string{{}}},
-	{"has_category", [][]string{{"@results.color", "Red"}}},
+	{"has_category", [][]string{{"@results.color", "Red"}, {"@results.color", " Red "}}},
 }
 
 var c07Operands = []string{"@input.text", "@(upper(input.text))", "@contact.name", "@fields.nope", "@(1/0)", "@input", "@(input.text & \" 7\")", "red", "@(array(1,2))", "@(null)"}
